@@ -8,16 +8,16 @@ import vcommon as vc
 
 SPEC = os.path.join(vc.VERIF, "spec", "Tree")
 TREE_INV = "TypeOK GhostIsDef ValidExact CacheSound RefCoherent"
-TREE_PROP = "RerootKeeps EdgeObjectStays RaiseKeeps"
+TREE_PROP = "RerootKeeps OutGroupKeeps EdgeObjectStays RaiseKeeps"
 DAG_INV = "TypeOK GhostIsDef ValidExact RootedExact CacheVSound CacheRSound RefCoherent"
-DAG_PROP = "RaiseKeeps"
+DAG_PROP = "RaiseKeeps RootAtHangs"
 
 # Steering of the main scenarios (DESIGN section 5): a trigger is switched off only while the
 # corresponding defect is a *known finding*; each has a probe scenario that still runs it.
 #   dups   second link on an existing relation            (C14: GlobalGraph::link)
 #   uedit  unlink / deleteNode in un-rooted mode           (C14: GlobalGraph::unlink)
 #   unroot unRoot followed by rootAt                       (C15 #15 + C14 makeDirected)
-STEER = {"dups": 1, "uedit": 1, "unroot": 1, "eobj": 1, "anc": 1, "onechild": 1}
+STEER = {"dups": 1, "uedit": 1, "unroot": 1, "eobj": 1, "anc": 1, "onechild": 1, "outgroup": 1, "dagroot": 1}
 
 
 def _steer():
@@ -110,7 +110,7 @@ def _corruption_control(ck, exe, wd):
     spec that constrains nothing): validity answer, MRCA answer, edge orientation after rootAt,
     a dropped leaf, an attached object."""
     base = os.path.join(wd, "corrupt-base.ndjson")
-    vc.run_driver(exe, ["--mode", "shapes", "--maxn", 4, "--dups", 0, "--uedit", 0, "--unroot", 0, "--eobj", 1, "--anc", 1, "--onechild", 1], base)
+    vc.run_driver(exe, ["--mode", "shapes", "--maxn", 4, "--dups", 0, "--uedit", 0, "--unroot", 0, "--eobj", 1, "--anc", 1, "--onechild", 1, "--outgroup", 1], base)
     lines = [json.loads(x) for x in open(base).read().splitlines()]
 
     def first(pred):
